@@ -643,7 +643,7 @@ package go_clipper2
 //@ spec contributes(ct ClipType, fr FillRule, pt PathType, wc int, dx int, wc2 int) bool = memberSide(ct, pt, ite(fr == EvenOdd, false, fillW(fr, leftW(wc, dx))), ite(fr == EvenOdd, wc2 != 0, fillW(fr, wc2))) != memberSide(ct, pt, ite(fr == EvenOdd, true, fillW(fr, rightW(wc, dx))), ite(fr == EvenOdd, wc2 != 0, fillW(fr, wc2)))
 
 //@ func clipperBase.isContributingClosed
-//@   props C01 C19
+//@   props C01 C19 C17
 //@   requires ae != nil && ae.localMin != nil && (ae.windDx == 1 || ae.windDx == -1)
 //@   requires c.fillRule == EvenOdd || ae.windCount != 0
 //@   requires c.fillRule == EvenOdd || c.fillRule == NonZero || c.fillRule == Positive || c.fillRule == Negative
@@ -659,7 +659,7 @@ package go_clipper2
 //@ spec repOK(wc, d int) bool = (d == 1 || d == -1) && wc != 0
 
 //@ func clipperBase.setWindCountForClosedPathEdge
-//@   props C01
+//@   props C01 C17 C19
 //@   nosafety
 //@   requires ae != nil && (ae.windDx == 1 || ae.windDx == -1)
 //@   loop 0 step [walk-left] ae2 == old(ae2).prevInAEL
@@ -673,7 +673,7 @@ package go_clipper2
 //@   assert after ae.windCount#7 [handover-7] (ae2 != ae && repOK(ae2.windCount, ae2.windDx)) ==> (leftW(ae.windCount, ae.windDx) == rightW(ae2.windCount, ae2.windDx) && ae.windCount != 0)
 
 //@ func clipperBase.intersectEdges
-//@   props C01 C19
+//@   props C01 C19 C17
 //@   nosafety
 //@   requires ae1 != nil && ae2 != nil && ae1 != ae2 && ae1.localMin != nil && ae2.localMin != nil
 //@   requires !c.hasOpenPaths && ae1.joinWith == JoinNone && ae2.joinWith == JoinNone
@@ -688,7 +688,7 @@ package go_clipper2
 // contribution rule (C01, C19) - the same table as isContributingClosed, reached by another code path
 //@ spec normW(fr FillRule, w int) int = ite(fr == Positive, w, ite(fr == Negative, -w, absI(w)))
 //@ func clipperBase.intersectEdges variant coldcross
-//@   props C01 C19
+//@   props C01 C19 C17
 //@   nosafety
 //@   requires ae1 != nil && ae2 != nil && ae1 != ae2 && ae1.localMin != nil && ae2.localMin != nil
 //@   requires !c.hasOpenPaths && ae1.joinWith == JoinNone && ae2.joinWith == JoinNone
@@ -742,7 +742,7 @@ package go_clipper2
 // invariance, C13): checked with rounded float arithmetic, so that forms that are equal over
 // the reals but not in float64 (e.g. dx*cy - dx*by) are told apart
 //@ func topX
-//@   props C13 C01
+//@   props C13 C01 C17 C19
 //@   floats rounded
 //@   requires ae != nil
 //@   assumes absI(currentY) <= pow2(52) && absI(ae.bot.Y) <= pow2(52) && absI(ae.bot.X) <= pow2(52) && absI(ae.top.X) <= pow2(52)
@@ -867,7 +867,7 @@ package go_clipper2
 //@   requires forall(k, 0, len(paths), domPath(paths[k], 29) && (len(paths[k]) <= 4 || noWrap(paths[k])))
 
 //@ func IsOdd
-//@   props C03 C01
+//@   props C03 C01 C17 C19
 //@   panicfree
 //@   inline
 //@   ensures [parity] result == (val%2 != 0)
@@ -1113,7 +1113,7 @@ package go_clipper2
 //@   panicfree
 
 //@ func absInt
-//@   props C03 C14 C01
+//@   props C03 C14 C01 C17 C19
 //@   panicfree
 //@   inline
 //@   ensures [magnitude] (a >= 0 ==> result == a) && (a < 0 ==> (result + a == 0 || toReal(a) <= -9223372036854775808.0))
@@ -1131,8 +1131,9 @@ package go_clipper2
 //@   ensures [two-apart] validLoc(prev) && validLoc(curr) ==> result == (prev - curr == 2 || curr - prev == 2)
 
 //@ func areaTriangle
-//@   props C03
-//@   panicfree
+//@   props C03 C01 C02 C17 C19
+//@   requires dom(pt1, 29) && dom(pt2, 29) && dom(pt3, 29)
+//@   ensures [half-the-cross-product-of-the-corners] result * 2 == toReal(cross(pt1, pt2, pt3))
 
 //@ func clipperBase.AddPath
 //@   props C03
@@ -1235,7 +1236,7 @@ package go_clipper2
 //@   panicfree
 
 //@ func swapActives
-//@   props C03 C01
+//@   props C03 C01 C17 C19
 //@   panicfree
 //@   inline
 //@   ensures [swapped] *ae1 == old(*ae2) && *ae2 == old(*ae1)
@@ -1256,7 +1257,7 @@ package go_clipper2
 //@ lemma crossScale props C13: forallInt(s, forallInt(ax, forallInt(ay, forallInt(bx, forallInt(by, forallInt(cx, forallInt(cy, cross(Point64{s*ax, s*ay}, Point64{s*bx, s*by}, Point64{s*cx, s*cy}) == s*s*cross(Point64{ax, ay}, Point64{bx, by}, Point64{cx, cy}))))))))
 
 //@ func CrossProduct variant maxcoord
-//@   props C13
+//@   props C13 C06 C11
 //@   budget 3
 //@   requires dom(pt1,61) && dom(pt2,61) && dom(pt3,61)
 
@@ -1266,7 +1267,7 @@ package go_clipper2
 //@   ensures [sign] (result > 0) == (cross(pt1, pt2, pt3) > 0) && (result == 0) == (cross(pt1, pt2, pt3) == 0)
 
 //@ func dotProduct64
-//@   props C13 C01
+//@   props C13 C01 C17 C19
 //@   floats rounded
 //@   requires dom(pt1,29) && dom(pt2,29) && dom(pt3,29)
 //@   ensures [sign] (result > 0) == (dotP(pt1, pt2, pt3) > 0) && (result == 0) == (dotP(pt1, pt2, pt3) == 0)
@@ -1282,24 +1283,24 @@ package go_clipper2
 //@   ensures [exact-except-1] (sharedPt.X-pt1.X != 1 && pt2.Y-sharedPt.Y != 1 && sharedPt.Y-pt1.Y != 1 && pt2.X-sharedPt.X != 1) ==> result == (cross(pt1, sharedPt, pt2) == 0)
 
 //@ func getSegmentIntersectPt
-//@   props C01 C13
+//@   props C01 C13 C17 C19
 //@   requires dom(ln1a,29) && dom(ln1b,29) && dom(ln2a,29) && dom(ln2b,29)
 //@   ensures [parallel] (cross(ln1a, ln1b, Point64{ln1b.X + (ln2b.X-ln2a.X), ln1b.Y + (ln2b.Y-ln2a.Y)}) == 0) == !result1
 
 //@ func getSegmentIntersectPt variant box
-//@   props C01
+//@   props C01 C17 C19
 //@   tier B
 //@   forget t
 //@   requires dom(ln1a,29) && dom(ln1b,29) && dom(ln2a,29) && dom(ln2b,29)
 //@   ensures [within-box] result1 ==> (min(ln1a.X, ln1b.X) <= result0.X && result0.X <= max(ln1a.X, ln1b.X) && min(ln1a.Y, ln1b.Y) <= result0.Y && result0.Y <= max(ln1a.Y, ln1b.Y))
 
 //@ func getSegmentIntersectPt variant maxcoord
-//@   props C13
+//@   props C13 C06 C11
 //@   budget 10
 //@   requires dom(ln1a,61) && dom(ln1b,61) && dom(ln2a,61) && dom(ln2b,61)
 
 //@ func getDx
-//@   props C01 C13
+//@   props C01 C13 C17 C19
 //@   floats rounded
 //@   requires dom(pt1,61) && dom(pt2,61)
 //@   ensures [slope] pt2.Y != pt1.Y ==> absI(result * toReal(pt2.Y-pt1.Y) - toReal(pt2.X-pt1.X)) <= absI(toReal(pt2.X-pt1.X)) / toReal(pow2(53)) || absI(pt2.X-pt1.X) > pow2(53) || absI(pt2.Y-pt1.Y) > pow2(53)
@@ -1312,7 +1313,7 @@ package go_clipper2
 //@   ensures [rounds] (val < 2305843009213693951.0 && val > -2305843009213693951.0) ==> (toReal(result) - val <= 0.5 && val - toReal(result) <= 0.5)
 
 //@ func getClosestPtOnSegment
-//@   props C01 C13
+//@   props C01 C13 C17 C19
 //@   assumes dom(offPt,29) && dom(seg1,29) && dom(seg2,29)
 //@   ensures [within-box] min(seg1.X, seg2.X) <= result.X && result.X <= max(seg1.X, seg2.X) && min(seg1.Y, seg2.Y) <= result.Y && result.Y <= max(seg1.Y, seg2.Y)
 
@@ -1691,7 +1692,7 @@ package go_clipper2
 //@   ensures [sides-follow-2] (old(ae2.outrec) != nil && old(ae1.outrec) != old(ae2.outrec)) ==> ((old(ae2.outrec.frontEdge) == ae2 ==> old(ae2.outrec).frontEdge == ae1) && (old(ae2.outrec.frontEdge) != ae2 ==> old(ae2.outrec).backEdge == ae1))
 
 //@ func clipperBase.swapPositionsInAEL
-//@   props C01 C03
+//@   props C01 C03 C17 C19
 //@   requires ae1 != nil && ae2 != nil && ae1 != ae2 && ae1.nextInAEL == ae2 && ae2.prevInAEL == ae1
 //@   requires ae2.nextInAEL != ae1 && ae2.nextInAEL != ae2 && ae1.prevInAEL != ae1 && ae1.prevInAEL != ae2
 //@   ensures [swapped] ae2.nextInAEL == ae1 && ae1.prevInAEL == ae2 && ae2.prevInAEL == old(ae1.prevInAEL) && ae1.nextInAEL == old(ae2.nextInAEL)
@@ -1700,7 +1701,7 @@ package go_clipper2
 //@   ensures [head-kept] old(ae1.prevInAEL) != nil ==> c.actives == old(c.actives)
 
 //@ func clipperBase.deleteFromAEL
-//@   props C01 C03 C12
+//@   props C01 C03 C12 C17 C19
 //@   requires ae != nil
 //@   assumes ae.prevInAEL != ae && ae.nextInAEL != ae
 //@   ensures [not-in-list-noop] (old(ae.prevInAEL) == nil && old(ae.nextInAEL) == nil && old(c.actives) != ae) ==> c.actives == old(c.actives)
@@ -1732,7 +1733,7 @@ package go_clipper2
 //@   ensures [registered] len(c.outrecList) == old(len(c.outrecList)) + 1 && c.outrecList[len(c.outrecList)-1] == ae1.outrec && ae1.outrec.idx == old(len(c.outrecList))
 
 //@ func roundToEven
-//@   props C01 C13 C03
+//@   props C01 C13 C03 C17 C19
 //@   requires absI(v) <= 4611686018427387904.0
 //@   ensures [nearest] absI(result - v) <= 0.5
 //@   ensures [integral] isIntegral(result)
@@ -1990,7 +1991,7 @@ package go_clipper2
 // ---------------------------------------------------------------------------------
 
 //@ func insertRightEdge
-//@   props C01 C03
+//@   props C01 C03 C17 C19
 //@   requires ae != nil && ae2 != nil && ae != ae2
 //@   assumes ae.nextInAEL != ae && ae.nextInAEL != ae2
 //@   ensures [inserted-after] ae.nextInAEL == ae2 && ae2.prevInAEL == ae && ae2.nextInAEL == old(ae.nextInAEL)
@@ -1998,14 +1999,14 @@ package go_clipper2
 //@   ensures [predecessor-kept] ae.prevInAEL == old(ae.prevInAEL)
 
 //@ func extractFromSEL
-//@   props C01 C03
+//@   props C01 C03 C17 C19
 //@   requires ae != nil
 //@   assumes ae.nextInSEL != ae && ae.prevInSEL != ae
 //@   ensures [returns-successor] result == old(ae.nextInSEL)
 //@   ensures [bypassed] (old(ae.nextInSEL) != nil ==> old(ae.nextInSEL).prevInSEL == old(ae.prevInSEL)) && (old(ae.prevInSEL) != nil ==> old(ae.prevInSEL).nextInSEL == old(ae.nextInSEL))
 
 //@ func insertBeforeInSEL
-//@   props C01 C03
+//@   props C01 C03 C17 C19
 //@   requires ae1 != nil && ae2 != nil && ae1 != ae2
 //@   assumes ae2.prevInSEL != ae2 && ae2.prevInSEL != ae1
 //@   ensures [inserted-before] ae1.nextInSEL == ae2 && ae2.prevInSEL == ae1 && ae1.prevInSEL == old(ae2.prevInSEL)
@@ -2077,7 +2078,7 @@ package go_clipper2
 
 // a new left bound is linked into the active list, and never between two edges that are joined
 //@ func clipperBase.insertLeftEdge
-//@   props C01 C03
+//@   props C01 C03 C17 C19
 //@   requires ae != nil
 //@   assumes c.actives != ae && forallp(e, Active, e.nextInAEL != ae && e.prevInAEL != ae)
 //@   assumes forallp(e, Active, e.joinWith == JoinRight ==> (e.nextInAEL != nil && e.nextInAEL.joinWith != JoinRight))
@@ -2090,7 +2091,7 @@ package go_clipper2
 // the geometric order test is kept opaque here (its own safety needs vertex-ring invariants that are
 // not stated); insertLeftEdge's list surgery does not depend on which answer it gives
 //@ func isValidAelOrder
-//@   props C01 C17
+//@   props C01 C17 C19
 //@   pure
 //@   nosafety
 //@   assumes resident != nil && newcomer != nil && dom(resident.top, 29) && dom(resident.bot, 29) && dom(newcomer.top, 29) && dom(newcomer.bot, 29)
@@ -2126,6 +2127,7 @@ package go_clipper2
 //@   assumes forall(j, 0, len(splits), 0 <= splits[j] && splits[j] < len(c.outrecList))
 //@   assumes forall(k, 0, len(c.outrecList), allocated(c.outrecList[k]))
 //@   assert after call:clipperBase.checkSplitOwner#1 [the-splits-of-a-newly-visited-ring-are-searched-too] forall(k, 0, len(old(split.splits)), visitedFor(c.outrecList[old(split.splits)[k]], outrec))
+//@   ensures [a-ring-never-becomes-its-own-owner] result ==> outrec.owner != outrec
 //@   ensures [no-owner-found-means-every-live-listed-split-was-visited] !result ==> forall(k, 0, len(splits), visitedFor(c.outrecList[splits[k]], outrec))
 //@   ensures [marks-are-kept] forallp(r, OutRec, old(r.recursiveSplit) == outrec ==> r.recursiveSplit == outrec)
 //@   ensures [records-stay-listed-and-dead-rings-stay-dead] len(c.outrecList) >= old(len(c.outrecList)) && forall(k, 0, old(len(c.outrecList)), c.outrecList[k] == old(c.outrecList[k])) && forallp(r, OutRec, fresh(r) || old(r.pts) != nil || r.pts == nil)
@@ -2150,7 +2152,7 @@ package go_clipper2
 // an intersection of two active edges is recorded where the edges cross whenever that point lies
 // inside the current scanbeam; only points outside it are repaired (C01, and C08 through the union)
 //@ func clipperBase.addNewIntersectNode
-//@   props C01 C08 C03
+//@   props C01 C08 C03 C17 C19
 //@   nosafety
 //@   requires ae1 != nil && ae2 != nil
 //@   assumes dom(ae1.bot, 29) && dom(ae1.top, 29) && dom(ae2.bot, 29) && dom(ae2.top, 29) && absI(topY) <= pow2(29) && absI(c.currentBotY) <= pow2(29) && absI(ae1.curX) <= pow2(29)
@@ -2170,7 +2172,7 @@ package go_clipper2
 // at the top of a scanbeam every edge that ends there is moved to its top vertex before it is
 // processed as a maximum: doMaxima and the horizontals it triggers read curX (C01)
 //@ func clipperBase.doMaxima
-//@   props C01 C09 C02
+//@   props C01 C09 C02 C17 C19
 //@   nosafety
 //@   opaque clipperBase.intersectEdges clipperBase.swapPositionsInAEL clipperBase.split clipperBase.addLocalMaxPoly
 //@   requires [edge-stands-at-its-top] ae != nil && ae.curX == ae.top.X
@@ -2183,16 +2185,19 @@ package go_clipper2
 //@   loop 0 step [the-edge-is-crossed-with-its-right-neighbour-until-it-meets-its-partner] nextE == ae.nextInAEL
 
 //@ func clipperBase.doTopOfScanbeam
-//@   props C01
+//@   props C01 C17 C19
 //@   nosafety
 
 // kept opaque here: its own obligations need the vertex ring and the join preconditions
 //@ func clipperBase.updateEdgeIntoAEL
-//@   props C01 C02 C08
+//@   props C01 C02 C08 C17 C19
 //@   nosafety
-//@   opaque clipperBase.insertScanline clipperBase.split trimHorz
+//@   opaque clipperBase.insertScanline trimHorz
 //@   assumes ae != nil && ae.vertexTop != nil && ae.localMin != nil && forallp(v, Vertex, v.next != nil && v.prev != nil && dom(v.pt, 61)) && forallp(e, Active, e.localMin != nil) && dom(ae.top, 61)
 //@   assert after ae.curX#0 [the-edge-advances-to-its-next-segment] ae.bot == old(ae.top) && ae.vertexTop == ite(ae.windDx > 0, old(ae.vertexTop).next, old(ae.vertexTop).prev) && ae.top == ae.vertexTop.pt && ae.curX == ae.bot.X
+//@   assumes ae.joinWith == JoinRight ==> (ae.nextInAEL != nil && ae.nextInAEL != ae)
+//@   assumes (ae.joinWith != JoinRight && ae.joinWith != JoinNone) ==> (ae.prevInAEL != nil && ae.prevInAEL != ae && ae.prevInAEL.localMin != nil)
+//@   ensures [an-edge-that-turns-horizontal-is-no-longer-joined] ae.top.Y == ae.bot.Y ==> ae.joinWith == JoinNone
 //@   assert after call:setDx#0 [the-slope-is-that-of-the-new-segment] ae.bot.Y == ae.top.Y ==> ae.dx == ite(ae.top.X > ae.bot.X, negInf, posInf)
 //@   assert after call:clipperBase.checkJoinRight#0 [a-join-to-the-right-needs-the-new-bottom-on-the-neighbours-line] (old(ae.nextInAEL) != nil && PerpendicDistFromLineSqr64(ae.bot, old(ae.nextInAEL.bot), old(ae.nextInAEL.top)) > 0.25) ==> ae.joinWith == old(ae.joinWith)
 
@@ -2203,13 +2208,13 @@ package go_clipper2
 // ---------------------------------------------------------------------------------
 
 //@ func isHotEdge
-//@   props C01 C02 C09 C03
+//@   props C01 C02 C09 C03 C17 C19
 //@   inline
 //@   requires ae != nil
 //@   ensures [has-an-output-record] result == (ae.outrec != nil)
 
 //@ func isOpen
-//@   props C09 C01 C03
+//@   props C09 C01 C03 C17 C19
 //@   inline
 //@   requires ae != nil && ae.localMin != nil
 //@   ensures [open-flag-of-the-local-minimum] result == ae.localMin.IsOpen
@@ -2227,7 +2232,7 @@ package go_clipper2
 //@   ensures [open-edge-at-an-end-vertex] result == (ae.localMin.IsOpen && ((ae.vertexTop.flags & OpenStart) != None || (ae.vertexTop.flags & OpenEnd) != None))
 
 //@ func isFront
-//@   props C02 C01 C03
+//@   props C02 C01 C03 C17 C19
 //@   inline
 //@   requires ae != nil && ae.outrec != nil
 //@   ensures [front-edge-of-its-record] result == (ae.outrec.frontEdge == ae)
@@ -2239,55 +2244,55 @@ package go_clipper2
 //@   ensures [front-edge-of-its-record] result == (hotEdge.outrec.frontEdge == hotEdge)
 
 //@ func isHorizontal
-//@   props C01 C09 C03
+//@   props C01 C09 C03 C17 C19
 //@   inline
 //@   requires ae != nil
 //@   ensures [top-and-bottom-level] result == (ae.top.Y == ae.bot.Y)
 
 //@ func isHeadingRightHorz
-//@   props C01 C03
+//@   props C01 C03 C17 C19
 //@   inline
 //@   requires ae != nil
 //@   ensures [slope-is-minus-infinity] result == (ae.dx == negInf)
 
 //@ func isHeadingLeftHorz
-//@   props C01 C03
+//@   props C01 C03 C17 C19
 //@   inline
 //@   requires ae != nil
 //@   ensures [slope-is-plus-infinity] result == (ae.dx == posInf)
 
 //@ func getPolyType
-//@   props C01 C19 C03
+//@   props C01 C19 C03 C17
 //@   inline
 //@   requires ae != nil && ae.localMin != nil
 //@   ensures [path-type-of-the-local-minimum] result == ae.localMin.PolyType
 
 //@ func isSamePolyType
-//@   props C01 C19 C03
+//@   props C01 C19 C03 C17
 //@   inline
 //@   requires ae1 != nil && ae2 != nil && ae1.localMin != nil && ae2.localMin != nil
 //@   ensures [same-path-type] result == (ae1.localMin.PolyType == ae2.localMin.PolyType)
 
 //@ func nextVertex
-//@   props C01 C03
+//@   props C01 C03 C17 C19
 //@   inline
 //@   requires ae != nil && ae.vertexTop != nil
 //@   ensures [along-the-winding-direction] result == ite(ae.windDx > 0, ae.vertexTop.next, ae.vertexTop.prev)
 
 //@ func prevPrevVertex
-//@   props C01 C03
+//@   props C01 C03 C17 C19
 //@   inline
 //@   requires ae != nil && ae.vertexTop != nil && ae.vertexTop.prev != nil && ae.vertexTop.next != nil
 //@   ensures [two-back-against-the-winding-direction] result == ite(ae.windDx > 0, ae.vertexTop.prev.prev, ae.vertexTop.next.next)
 
 //@ func isMaxima
-//@   props C01 C03
+//@   props C01 C03 C17 C19
 //@   inline
 //@   requires vertex != nil
 //@   ensures [local-max-flag] result == ((vertex.flags & LocalMax) != None)
 
 //@ func isMaximaActive
-//@   props C01 C03
+//@   props C01 C03 C17 C19
 //@   inline
 //@   requires ae != nil && ae.vertexTop != nil
 //@   ensures [top-vertex-is-a-local-max] result == ((ae.vertexTop.flags & LocalMax) != None)
@@ -2306,7 +2311,7 @@ package go_clipper2
 //@   ensures [nothing-else] outrec.pts == old(outrec.pts) && outrec.owner == old(outrec.owner) && forallp(r, OutRec, r != outrec ==> (r.frontEdge == old(r.frontEdge) && r.backEdge == old(r.backEdge)))
 
 //@ func edgesAdjacentInAEL
-//@   props C01 C03
+//@   props C01 C03 C17 C19
 //@   inline
 //@   requires inode != nil && inode.edge1 != nil
 //@   ensures [neighbours-either-way] result == (inode.edge1.nextInAEL == inode.edge2 || inode.edge1.prevInAEL == inode.edge2)
@@ -2345,7 +2350,7 @@ package go_clipper2
 //@   ensures [sides-follow-1] (old(ae1.outrec) != nil && old(ae1.outrec) != old(ae2.outrec)) ==> ((old(ae1.outrec.frontEdge) == ae1 ==> old(ae1.outrec).frontEdge == ae2) && (old(ae1.outrec.frontEdge) != ae1 ==> old(ae1.outrec).backEdge == ae2))
 
 //@ func addLocMin
-//@   props C01 C09 C12 C03
+//@   props C01 C09 C12 C03 C17 C19
 //@   inline
 //@   requires v != nil
 //@   ensures [already-a-minimum-noop] (old(v.flags) & LocalMin) != None ==> (len(*minimaList) == old(len(*minimaList)) && v.flags == old(v.flags))
@@ -2406,7 +2411,7 @@ package go_clipper2
 //@   ensures [leftmost-edge-has-none] ae.prevInAEL == nil ==> result == nil
 
 //@ func getMaximaPair
-//@   props C01 C03
+//@   props C01 C03 C17 C19
 //@   nosafety
 //@   assumes ae != nil
 //@   loop 0 invariant [walk] ((ae.nextInAEL != nil && ae.nextInAEL.vertexTop == ae.vertexTop) ==> ae2 == ae.nextInAEL) && (ae.nextInAEL == nil ==> ae2 == nil)
@@ -2415,7 +2420,7 @@ package go_clipper2
 //@   ensures [last-edge-has-none] ae.nextInAEL == nil ==> result == nil
 
 //@ func getCurrYMaximaVertex
-//@   props C01 C03
+//@   props C01 C03 C17 C19
 //@   nosafety
 //@   assumes ae != nil && ae.vertexTop != nil && forallp(v, Vertex, v.next != nil && v.prev != nil)
 //@   loop 0 invariant [level] result != nil && result.pt.Y == ae.vertexTop.pt.Y
@@ -2431,7 +2436,7 @@ package go_clipper2
 //@   ensures [a-local-max-on-the-top-level-of-the-edge-or-none] result == nil || ((result.flags & LocalMax) != None && result.pt.Y == ae.vertexTop.pt.Y)
 
 //@ func resetHorzDirection
-//@   props C01 C09 C03
+//@   props C01 C09 C03 C17 C19
 //@   nosafety
 //@   assumes horz != nil
 //@   loop 0 invariant [walk] true
@@ -2465,7 +2470,7 @@ package go_clipper2
 // upwards (larger Y first), ties from left to right, and a crossing is only processed while its two edges are
 // neighbours in the active edge list
 //@ func clipperBase.processIntersectList
-//@   props C01 C17 C03 C08 C02
+//@   props C01 C17 C03 C08 C02 C19
 //@   nosafety
 //@   opaque clipperBase.intersectEdges clipperBase.swapPositionsInAEL
 //@   assumes forall(k, 0, len(c.intersectList), c.intersectList[k] != nil && c.intersectList[k].edge1 != nil && c.intersectList[k].edge2 != nil)
@@ -2511,7 +2516,7 @@ package go_clipper2
 // vertex winds negatively, the one towards the next vertex positively; the bound that leaves to the left is inserted
 // as the left bound, its partner directly to its right with the same winding counts
 //@ func clipperBase.insertLocalMinimaIntoAEL
-//@   props C01 C09 C17 C03
+//@   props C01 C09 C17 C03 C19
 //@   nosafety
 //@   opaque clipperBase.isContributingClosed clipperBase.isContributingOpen clipperBase.intersectEdges clipperBase.swapPositionsInAEL clipperBase.insertScanline clipperBase.checkJoinLeft clipperBase.checkJoinRight clipperBase.setWindCountForClosedPathEdge clipperBase.setWindCountForOpenPathEdge
 //@   assumes forallp(v, Vertex, dom(v.pt, 61) && v.next != nil && v.prev != nil) && forallp(m, LocalMinima, m.Vertex != nil)
@@ -2526,7 +2531,7 @@ package go_clipper2
 // discarded before the sweep leaves that scanline - a segment that survived could later be paired with a segment of
 // another scanline, because pairing only compares X ranges and directions
 //@ func clipperBase.executeInternal
-//@   props C17 C02 C01
+//@   props C17 C02 C01 C19
 //@   nosafety
 //@   opaque clipperBase.popScanline clipperBase.reset
 //@   assert after c.currentBotY#0 [horizontal-segments-are-consumed-before-the-sweep-leaves-their-scanline] len(c.horzSegList) == 0
@@ -2544,7 +2549,7 @@ package go_clipper2
 // the horizontal's level, and it advances to that X; unless it ends at the maximum it is heading for, it never
 // crosses an edge that stands beyond the far end of its span - an open path's last horizontal included
 //@ func clipperBase.doHorizontal
-//@   props C01 C09 C03
+//@   props C01 C09 C03 C17 C19
 //@   nosafety
 //@   opaque clipperBase.intersectEdges clipperBase.swapPositionsInAEL clipperBase.checkJoinLeft clipperBase.checkJoinRight clipperBase.split clipperBase.addLocalMaxPoly clipperBase.updateEdgeIntoAEL topX
 //@   assumes horz != nil && horz.localMin != nil && horz.vertexTop != nil && forallp(v, Vertex, v.next != nil && v.prev != nil) && forallp(e, Active, e.localMin != nil && e.vertexTop != nil)
@@ -2557,7 +2562,7 @@ package go_clipper2
 // only for pairs that are out of order there; a pair in order is left alone, an out-of-order right edge is moved
 // directly in front of the left edge it has overtaken
 //@ func clipperBase.buildIntersectList
-//@   props C01 C03
+//@   props C01 C03 C17 C19
 //@   nosafety
 //@   opaque clipperBase.addNewIntersectNode clipperBase.adjustCurrXAndCopyToSEL
 //@   assumes len(c.intersectList) == 0
@@ -2568,7 +2573,7 @@ package go_clipper2
 // the sorted edge list is a copy of the active edge list taken at the top of the scanbeam, with every edge moved
 // to its X at that level (C01); the intersections of a beam are built, processed and then discarded (C12)
 //@ func clipperBase.adjustCurrXAndCopyToSEL
-//@   props C01 C03
+//@   props C01 C03 C17 C19
 //@   nosafety
 //@   assumes forallp(e, Active, dom(e.bot, 52) && dom(e.top, 52) && absI(e.dx * toReal(topY - e.bot.Y)) <= toReal(pow2(54))) && absI(topY) <= pow2(52)
 //@   loop 0 step [each-edge-is-copied-with-its-neighbours-and-moved-to-the-top-of-the-beam] old(ae).prevInSEL == old(ae).prevInAEL && old(ae).nextInSEL == old(ae).nextInAEL && old(ae).jump == old(ae).nextInAEL && ae == old(ae).nextInAEL
@@ -2577,26 +2582,26 @@ package go_clipper2
 //@   ensures [the-copy-starts-at-the-head-of-the-active-list] c.sel == c.actives && c.actives == old(c.actives)
 
 //@ func clipperBase.doIntersections
-//@   props C01 C12 C03
+//@   props C01 C12 C03 C17 C19
 //@   nosafety
 //@   opaque clipperBase.processIntersectList
 //@   assumes len(c.intersectList) == 0
 //@   ensures [crossings-do-not-outlive-their-beam] len(c.intersectList) == 0
 
 //@ func clipperBase.pushHorz
-//@   props C01 C03
+//@   props C01 C03 C17 C19
 //@   inline
 //@   requires ae != nil
 //@   ensures [pushed-on-the-stack-of-pending-horizontals] c.sel == ae && ae.nextInSEL == old(c.sel)
 
 //@ func clipperBase.hasLocMinAtY
-//@   props C01 C03
+//@   props C01 C03 C17 C19
 //@   inline
 //@   nosafety
 //@   ensures [next-unprocessed-minimum-lies-on-this-scanline] result == (c.currentLocMin < len(c.minimaList) && c.minimaList[c.currentLocMin].Vertex.pt.Y == y)
 
 //@ func clipperBase.popLocalMinima
-//@   props C01 C03
+//@   props C01 C03 C17 C19
 //@   inline
 //@   nosafety
 //@   ensures [minima-are-taken-in-list-order-each-once] result == c.minimaList[old(c.currentLocMin)] && c.currentLocMin == old(c.currentLocMin) + 1
@@ -2608,7 +2613,7 @@ package go_clipper2
 // ---------------------------------------------------------------------------------
 
 //@ func BooleanOpPaths64 variant wiring
-//@   props C19 C01 C07 C12
+//@   props C19 C01 C07 C12 C17
 //@   nosafety
 //@   opaque clipper64.AddPaths clipper64.Execute
 //@   assert after call:clipper64.AddPaths#0 [the-subject-set-is-added-as-closed-subject-paths] same(arg0, subject) && arg1 == Subject && !arg2
@@ -2685,7 +2690,7 @@ package go_clipper2
 // segsIntersect (exclusive form): true exactly for a proper crossing - the end points of each segment lie strictly
 // on opposite sides of the other segment's line (exact integer cross products)
 //@ func segsIntersect
-//@   props C01 C02 C14 C03
+//@   props C01 C02 C14 C03 C17 C19
 //@   requires dom(seg1a, 29) && dom(seg1b, 29) && dom(seg2a, 29) && dom(seg2b, 29)
 //@   ensures [proper-crossing] !inclusive ==> result == (((cross(seg1a, seg2a, seg2b) > 0 && cross(seg1b, seg2a, seg2b) < 0) || (cross(seg1a, seg2a, seg2b) < 0 && cross(seg1b, seg2a, seg2b) > 0)) && ((cross(seg2a, seg1a, seg1b) > 0 && cross(seg2b, seg1a, seg1b) < 0) || (cross(seg2a, seg1a, seg1b) < 0 && cross(seg2b, seg1a, seg1b) > 0)))
 //@   ensures [inclusive-same-side-is-no-crossing] (inclusive && ((cross(seg1a, seg2a, seg2b) > 0 && cross(seg1b, seg2a, seg2b) > 0) || (cross(seg1a, seg2a, seg2b) < 0 && cross(seg1b, seg2a, seg2b) < 0))) ==> !result
@@ -2716,7 +2721,7 @@ package go_clipper2
 
 // trimHorz: a horizontal edge only ever absorbs following vertices on its own level; its bottom never moves
 //@ func trimHorz
-//@   props C01 C02 C03
+//@   props C01 C02 C03 C17 C19
 //@   nosafety
 //@   opaque setDx
 //@   assumes horzEdge != nil && horzEdge.vertexTop != nil && horzEdge.top == horzEdge.vertexTop.pt && forallp(v, Vertex, v.next != nil && v.prev != nil)
